@@ -254,7 +254,7 @@ def pick_species(rnd, natural, n):
     return out
 
 
-def build_object(o, names, props, natural, d=None, v=None, form="dict"):
+def build_object(o, names, props, natural, d=None, v=None, form="dict", texts=None):
     """o: object description emitted by TLC (cls, mode, given, vol, ud, uv).  Always fresh Quantity objects."""
     kw = {}
     if o.get("given") == "rho":
@@ -265,24 +265,23 @@ def build_object(o, names, props, natural, d=None, v=None, form="dict"):
         kw["volume"] = Quantity(v, o["uv"])
     if o["cls"] == "element":
         return Element(names[0], proportion=props[0], natural=natural, **kw)
-    form = o.get("form", form)
+    form = o.get("form") or form
     if o["cls"] == "substance":
         if form == "text":            # a formula: species with integer counts
             text = "".join(n + (str(int(p)) if int(p) != 1 else "") for n, p in zip(names, props))
             return Substance(text, natural=natural, **kw)
         return Substance(dict(zip(names, props)), natural=natural, **kw)
     if form in ("text", "string"):
-        text = " ".join("%s <%s>" % (num_text(p), n) for n, p in zip(names, props))
+        # a proportion is written in the spelling the harness drew for it, when that spelling denotes exactly this value
+        spell = [texts[i] if texts and i < len(texts) and float(texts[i]) == float(p) else num_text(p) for i, p in enumerate(props)]
+        text = " ".join("%s <%s>" % (t, n) for n, t in zip(names, spell))
         return Material(text, natural=natural, norm_type=Norm[o["mode"]], **kw)
     return Material(dict(zip(names, props)), natural=natural, norm_type=Norm[o["mode"]], **kw)
 
 
 def num_text(p):
-    """A proportion as the material expression syntax accepts it (digits, optional decimals; no exponent)."""
-    t = repr(float(p)) if float(p) != int(p) else str(int(p))
-    if "e" in t or "E" in t:
-        raise ValueError("proportion %r cannot be written without an exponent" % (p,))
-    return t
+    """A proportion as the material expression syntax accepts it (Python's shortest spelling; may use an exponent)."""
+    return repr(float(p)) if float(p) != int(p) else str(int(p))
 
 
 def observe_fractions(obj, names, nm, obs):
@@ -324,9 +323,10 @@ def replay_objects(rec, conc, what):
     obs, inp = {}, dict(conc["inp"])
     env = T.Env(obs=obs, inp=inp, tab=tab)
     built, py, desc_of = [], {}, {}
-    names = conc["names"]
+    allnames = conc["names"]
     for o in rec["objects"]:
         how = o.get("how", "build")
+        names = allnames[:len(o["eff"])] if "eff" in o else allnames          # the object has the first Len(eff) components
         desc = {"object": o["name"], "how": how, "cls": o["cls"], "mode": o["mode"], "names": names, "natural": conc["natural"]}
         built.append(desc)
         try:
@@ -338,14 +338,26 @@ def replay_objects(rec, conc, what):
                     steps = [(st["i"], T.ev(st["q"], env)) for st in o.get("steps", [])]
                 except T.Missing as m:
                     return ("fail", {"failure": "wrong_value", "clause": "input of object %s needs %s" % (o["name"], m), "observed": obs})
-                desc.update({"props": props, "d": d, "ud": o.get("ud"), "v": v, "uv": o.get("uv"), "steps": steps,
-                             "form": o.get("form", conc.get("form", "dict"))})
-                obj = build_object(o, names, props, conc["natural"], d, v, conc.get("form", "dict") if o["name"] == "A" else "dict")
+                form = o.get("form") or (conc.get("form", "dict") if o["name"] == "A" else "dict")
+                desc.update({"props": props, "d": d, "ud": o.get("ud"), "v": v, "uv": o.get("uv"), "steps": steps, "form": form})
+                obj = build_object(o, names, props, conc["natural"], d, v, form, conc.get("texts"))
                 for i, q in steps:
                     obj.add(names[i - 1], q)                    # in place, the component exists already
                 desc_of[o["name"]] = o
+            elif how == "sumc":
+                q = T.ev(o["q"], env)
+                name = allnames[o["comp"] - 1]
+                comp = Element(name, proportion=q, natural=conc["natural"]) if o["cls"] == "substance" \
+                    else Substance(name, proportion=q, natural=conc["natural"])
+                desc.update({"component": name, "q": q})
+                obj = py[o["of"][0]] + comp
+                desc_of[o["name"]] = dict(desc_of[o["of"][0]])
             elif how == "sum":
                 obj = py[o["of"][0]] + py[o["of"][1]]
+                steps = [(st["i"], T.ev(st["q"], env)) for st in o.get("steps", [])]
+                for i, q in steps:
+                    obj.add(allnames[i - 1], q)                 # the RESULT is changed afterwards
+                desc["steps"] = steps
                 desc_of[o["name"]] = dict(desc_of[o["of"][0]])
             elif how == "perturb":
                 obj = py[o["of"][0]]
@@ -355,6 +367,8 @@ def replay_objects(rec, conc, what):
                 obj = py[o["of"][0]]
                 desc_of[o["name"]] = desc_of[o["of"][0]]
             py[o["name"]] = obj
+            if o.get("silent"):
+                continue
             if what == "fractions":
                 observe_fractions(obj, names, o["name"], obs)
             else:
